@@ -3,20 +3,20 @@
 
    Units: time in ns, tokens scaled by SCALE = 10^9 (see Limiter.v).  [lim_decisions o [] h] are the decisions the
    ClientLimiter takes on the history h (arrivals (time, address, cost) and collector runs) starting
-   with an empty table; [lim_admitted o k t0 t1 h ds] is the total cost admitted for subnet key k at times
+   with an empty table; [lim_granted o k t0 t1 h ds] is the total cost granted for subnet key k at times
    within [t0, t1]. *)
 From Mos Require Import Base.Prelude Limit.Limiter Limit.LimiterProofs.
 Local Open Scope Z_scope.
 
 (* Window bound, histories without a collector run.  For every arrival sequence with non-decreasing
    timestamps, every key and every window:
-       admitted * 10^9  <=  burst * 10^9 + rate * (t1 - t0) + (rate - 1)
+       granted * 10^9  <=  burst * 10^9 + rate * (t1 - t0) + (rate - 1)
    i.e. strictly less than  burst + rate * (window + 1 ns).  The last summand (< one nanosecond of refill)
    is x/time/rate's truncation of the wait time to whole nanoseconds; it is attained (C15_bound_slack_attained),
    so the literal  burst + rate * window  can be exceeded by less than rate * 10^-9 token. *)
 Theorem C15_bound : forall (o : opts) (k : addr) (t0 t1 : Z) (h : list lev),
   0 < o_limit o -> 0 <= o_burst o -> lim_sorted h = true -> has_gc h = false -> t0 <= t1 ->
-  lim_admitted o k t0 t1 h (lim_decisions o [] h) * SCALE
+  lim_granted o k t0 t1 h (lim_decisions o [] h) * SCALE
     <= o_burst o * SCALE + o_limit o * (t1 - t0) + (o_limit o - 1).
 Proof. exact bound_nogc. Qed.
 Print Assumptions C15_bound.
@@ -26,7 +26,7 @@ Print Assumptions C15_bound.
    loses nothing). *)
 Theorem C15_bound_gc : forall (o : opts) (k : addr) (t0 t1 : Z) (h : list lev),
   0 < o_limit o -> 0 <= o_burst o -> lim_sorted h = true -> o_burst o <= 60 * o_limit o -> t0 <= t1 ->
-  lim_admitted o k t0 t1 h (lim_decisions o [] h) * SCALE
+  lim_granted o k t0 t1 h (lim_decisions o [] h) * SCALE
     <= o_burst o * SCALE + o_limit o * (t1 - t0) + (o_limit o - 1).
 Proof. exact bound_gc. Qed.
 Print Assumptions C15_bound_gc.
@@ -35,7 +35,7 @@ Print Assumptions C15_bound_gc.
 Theorem C15_bound_configured : forall (cfg : opts) (k : addr) (t0 t1 : Z) (h : list lev),
   let o := set_default cfg in
   lim_sorted h = true -> (has_gc h = true -> o_burst o <= 60 * o_limit o) -> t0 <= t1 ->
-  lim_admitted o k t0 t1 h (lim_decisions o [] h) * SCALE
+  lim_granted o k t0 t1 h (lim_decisions o [] h) * SCALE
     <= o_burst o * SCALE + o_limit o * (t1 - t0) + (o_limit o - 1).
 Proof.
   intros cfg k t0 t1 h o S G T. pose proof (default_wf cfg) as W. cbn zeta in W.
@@ -44,11 +44,11 @@ Qed.
 Print Assumptions C15_bound_configured.
 
 (* Finding K3: with burst > 60 * rate the bound fails once the collector runs: a collected bucket is
-   reborn full.  Witness: rate 1, burst 1000; 2000 admitted within 60.000000001 s, and the second
+   reborn full.  Witness: rate 1, burst 1000; 2000 granted within 60.000000001 s, and the second
    arrival is refused when the collector does not run. *)
 Theorem C15_gc_refuted : exists (o : opts) (k : addr) (t0 t1 : Z) (h : list lev),
   0 < o_limit o /\ 0 <= o_burst o /\ lim_sorted h = true /\ t0 <= t1 /\ 60 * o_limit o < o_burst o /\
-  ~ (lim_admitted o k t0 t1 h (lim_decisions o [] h) * SCALE
+  ~ (lim_granted o k t0 t1 h (lim_decisions o [] h) * SCALE
        <= o_burst o * SCALE + o_limit o * (t1 - t0) + (o_limit o - 1)).
 Proof.
   exists k3_opts, k3_key, 0, k3_t, k3_history.
@@ -63,7 +63,7 @@ Print Assumptions C15_gc_refuted.
    burst + rate * window is exceeded by 10^-9 token. *)
 Theorem C15_bound_slack_attained : exists (o : opts) (k : addr) (t0 t1 : Z) (h : list lev),
   0 < o_limit o /\ lim_sorted h = true /\ has_gc h = false /\ t0 <= t1 /\
-  lim_admitted o k t0 t1 h (lim_decisions o [] h) * SCALE = o_burst o * SCALE + o_limit o * (t1 - t0) + 1.
+  lim_granted o k t0 t1 h (lim_decisions o [] h) * SCALE = o_burst o * SCALE + o_limit o * (t1 - t0) + 1.
 Proof.
   exists slack_opts, (mask_addr slack_opts k3_client), 0, 333333333, slack_history.
   destruct slack_witness as (_ & E).
@@ -105,7 +105,7 @@ Print Assumptions C15_defaults.
    global limit the refusal is exactly the client limiter's decision for that address. *)
 Theorem C15_refusal : forall (r : rl) (now : Z) (l : listener) (a : addr) (hit : bool) (c : Z),
   query_cost l = Some c -> rl_is_ok (snd (rl_allow r now a c)) = false ->
-  admit_query r now l a hit = (fst (rl_allow r now a c), refusal l) /\
+  accept_query r now l a hit = (fst (rl_allow r now a c), refusal l) /\
   forwards (refusal l) = false /\
   (l = LUdp \/ l = LTcp \/ l = LTls -> refusal l = ORefused) /\
   (l = LHttp \/ l = LHttps -> refusal l = O503).
@@ -142,11 +142,11 @@ Example C15_example :
   lim_decisions ex_o [] ex_h =
     [Some true; Some true; Some false; Some true; Some false; Some true; Some false; None; Some true] /\
   lim_decisions_for ex_o (mask_addr ex_o ex_a1) ex_h (lim_decisions ex_o [] ex_h) = [true; false; true; false; true; false] /\
-  lim_admitted ex_o (mask_addr ex_o ex_a1) 0 100000000 ex_h (lim_decisions ex_o [] ex_h) = 11 /\
+  lim_granted ex_o (mask_addr ex_o ex_a1) 0 100000000 ex_h (lim_decisions ex_o [] ex_h) = 11 /\
   lim_sorted ex_h = true /\
   mask_addr ex_o ex_m = mask_addr ex_o ex_a1 /\ mask_addr ex_o ex_a2 = mask_addr ex_o ex_a1 /\ mask_addr ex_o ex_b <> mask_addr ex_o ex_a1 /\
   mask_addr ex_o (A6 (42540766411283801819617087728247635969)) = mask_addr ex_o (A6 (42540766411285010690096470136293687305)) /\
-  admit_run (rl_init 0 0 (mkOpts 1 5 0 0)) 0
+  listener_run (rl_init 0 0 (mkOpts 1 5 0 0)) 0
     [AQuery LUdp ex_a1 false; AQuery LUdp ex_a1 false; AQuery LUdp ex_a1 false;
      AQuery LHttp ex_a1 false; AQuery LTcp ex_b false; AConn LQuic ex_a1]
     = [OAnswered; OAnswered; ORefused; O503; OAnswered; OConnClosed].
